@@ -225,6 +225,25 @@ def case_axis(ctx, n):
     rp = lambda m: _replay_axis(n, m(fr))
     ctx.prove("frequency axis = k*frame_rate/n_frames, k < n/2", pre, all_eq(ax, want) if ax.shape == want.shape else z3.BoolVal(False),
               replay=rp, witness_terms=dict(frame_rate=fr))
+    # no shared state: an axis handed out earlier and edited by the caller does not change later axes
+    with npx.symbolic(tp):
+        first = tp.get_tps_time_axis(fr, n)
+        if numpy.size(first):
+            first *= 2
+        second = tp.get_tps_time_axis(fr, n)
+    ctx.prove("axis requested again after the caller scaled the first one is unchanged (fresh array)", pre,
+              z3.And(z3.BoolVal(first is not second or not numpy.size(first)), all_eq(numpy.asarray(second, dtype=object), want) if numpy.shape(second) == want.shape else z3.BoolVal(False)),
+              replay=lambda m: harness.pristine_call(_replay_axis_fresh, n, m(fr)), witness_terms=dict(frame_rate=fr))
+
+
+def _replay_axis_fresh(n, fr):
+    _, tp = _mods()
+    a = tp.get_tps_time_axis(fr, n)
+    keep = numpy.array(a)
+    if a.size:
+        a *= 2
+    b = tp.get_tps_time_axis(fr, n)
+    return bool(not numpy.array_equal(b, keep)), dict(what="get_tps_time_axis returns a shared array: editing one result changes the next", first=keep, second=b)
 
 
 def _replay_axis(n, fr):
